@@ -37,8 +37,10 @@ def gen(rng, tier):
     out = []
     n = 110 if tier == 'quick' else 1500
     for _ in range(n):
-        d = KO.rand_shape(rng)
+        d = KO.rand_shape(rng) if rng.random() < .8 else S.rand_curve(rng, maxp=4, clamped=False)   # unclamped: start point != first control point
         x = _xform(rng, d)
+        if rng.random() < .08:
+            x = ('T', [F(0)] * d['dim'])          # the identity translation must still return a new object
         inplace = rng.random() < .5
         G.count('xform', x[0]); G.count('inplace', inplace)
         if x[0] == 'T':
